@@ -209,6 +209,22 @@ fn special(c: &SpecialCase, pool: &[Base]) -> Verdict {
             sig[0..4].copy_from_slice(&((c.a >> 32) as u32).to_be_bytes());
             total(h, &b.msg, &sig, &b.pk)
         }
+        "vk-object-mutated" => {
+            // a: new length of the key object's bytes (prefix of the good key, or garbage beyond it)
+            let mut nb = b.pk.clone();
+            nb.truncate(c.a as usize % 61);
+            if c.a >= 100 {
+                nb = gen::expand(c.a, (c.a as usize) % 61);
+            }
+            if c.a >= 200 && nb.len() >= 12 {
+                nb = b.pk.clone();
+                nb[(c.a as usize % 3) * 4 + 3] = 0x7f;
+            }
+            match libapi::verify_with_mutated_key_object(h, &b.pk, &nb, &b.msg, &b.sig) {
+                Out::Panic(m) => Err((panic_key(&m), format!("VerifyingKey::verify panics after its pub bytes field was overwritten with {} bytes: {}", nb.len(), m))),
+                _ => Ok(false),
+            }
+        }
         "long-pk" => {
             let mut pk = b.pk.clone();
             pk.resize(c.a as usize, 0x5a);
@@ -402,6 +418,9 @@ pub fn run(ctx: &Ctx) {
         }
         for a in [59u64, 60, 61, 64, 100, 65535, 65536, 70000] {
             sp.push(SpecialCase { hash: h, kind: "long-pk".into(), a });
+        }
+        for a in (0u64..=60).chain([100, 117, 133, 159, 200, 201, 202]) {
+            sp.push(SpecialCase { hash: h, kind: "vk-object-mutated".into(), a });
         }
         if h == HashId::Sha256_256 || h == HashId::Shake256_128 {
             for nspk in 0..=9u64 {
